@@ -54,8 +54,13 @@ class Deg:
             if cn == "numpy.einsum":
                 ds = [self.of(x) for x in a[2][1:]]
                 return None if None in ds else sum(ds)
-            if cn in ("numpy.array", "numpy.asarray", "numpy.rollaxis", "numpy.sum", "abs", "numpy.vstack"):
+            if cn in ("numpy.array", "numpy.asarray", "numpy.rollaxis", "numpy.sum", "abs", "numpy.vstack", "numpy.max", "numpy.min", "numpy.amax", "numpy.abs"):
                 return self.of(a[2][0])
+            if cn in ("max", "min") and a[2]:
+                # a floor/ceiling by a constant (tiny) does not change the degree of the non-constant operand
+                ds = [self.of(x) for x in a[2]]
+                nz = [d for x, d in zip(a[2], ds) if not (x.const_value() is not None or "finfo" in x.key())]
+                return nz[0] if len(set(nz)) == 1 and None not in nz else None
             if cn in (".sum", ".astype", ".copy"):
                 return self.of(a[1].as_atom()[1])
             if cn == "sqrt":
@@ -89,9 +94,9 @@ def run(chk):
                        "each vertex uses the normal and a dual point of the same simplex; facet membership; in-plane basis, "
                        "ascending atan2 ordering and fan triangulation.")
     chk.rule("R19.1", "homogeneity: scaling all energies by s scales every vertex by s (degree 1)", 5)
-    chk.rule("R19.2", "dual point n e/|n e|^2; vertex = N e_i/(N.n_i) with i a vertex of the same simplex; every simplex is listed under each of its three dual points", 6)
+    chk.rule("R19.2", "dual point n/e; vertex = N e_i/(N.n_i) with i a vertex of the same simplex; every simplex is listed under each of its three dual points", 6)
     chk.rule("R19.4", "facet bookkeeping and scale: one ordered vertex list per facet (position i <-> facet i) on every path; the pruning "
-                      "comparison has the same length dimension on both sides; energies are stored with a dtype of their own", 3)
+                      "comparison is scale free and squares the threshold with the distance; energies are stored with a dtype of their own", 3)
     chk.rule("R19.3", "orientation: in-plane basis (a, n x a), ascending atan2(v, u), fan triangulation (f0, f_i, f_i+1)", 6)
     pv = w.ev("WulffConstruction._populate_duals")
     xv = w.ev("WulffConstruction._extract_wulff_from_dual_mesh", opaque={"simplices", "normals", "facet_indices", "corresponding_facet_normals",
@@ -135,9 +140,9 @@ def run(chk):
         FV = P.atom(("attr", P.name("self"), "facet_vectors"))
         nax = P.atom(("sub", FE, (P.atom(("slice",) + (P.atom(("const", None)),) * 3), P.name("numpy.newaxis"))))
         chk.ob("R19.2", W, "WulffConstruction._populate_duals", "facet vector = normal * energy", fv == FN * nax, expected=str(FN * nax), found=str(fv))
-        sq = P.atom(("call", P.atom(("attr", FV * FV, "sum")), (), (("axis", P.const(1)),)))
-        want = FV / P.atom(("sub", sq, (P.atom(("slice",) + (P.atom(("const", None)),) * 3), P.name("numpy.newaxis"))))
-        chk.ob("R19.2", W, "WulffConstruction._populate_duals", "dual point = facet vector / |facet vector|^2", dv == want, expected=str(want), found=str(dv))
+        want = FN / nax
+        chk.ob("R19.2", W, "WulffConstruction._populate_duals", "dual point of the plane n.x = e is n / e (n e / |n e|^2 is that only for unit normals; the property "
+               "quantifies over any set of normals)", dv == want, fingerprint="dual-point", expected=str(want), found=str(dv))
         sim = defs.get("simplices")
         chk.ob("R19.2", W, "WulffConstruction._extract_wulff_from_dual_mesh", "simplices are those of the dual hull", sim is not None and sim.key() == "self.dual_hull.simplices",
                found=str(sim))
@@ -215,7 +220,7 @@ def run(chk):
     if chk.want("R19.4"):
         r19_4(chk, w)
     chk.assume("that the hull's simplices are the right ones, degeneracies and volume are geometry and are not decided")
-    chk.assume("ConvexHull combinatorics are invariant under uniform scaling (library contract); the absolute pruning threshold 1e-5 is the recorded exception to homogeneity")
+    chk.assume("ConvexHull combinatorics are invariant under uniform scaling (library contract); the pruning threshold is a ratio of the shape size (scale free since D40)")
 
 
 def r19_4(chk, w):
@@ -240,17 +245,25 @@ def r19_4(chk, w):
     pv = w.ev("prune_degenerate_points")
     chk.saw(W, "prune_degenerate_points")
     pts, thr = pv.param_names[0], pv.param_names[1]
-    deg = Deg({pts: 1, thr: 1})
+    deg_len = Deg({pts: 1, thr: 0})        # length dimension: the threshold is a ratio
+    deg_thr = Deg({pts: 0, thr: 1})        # power of the threshold
     km = [e for e in pv.events if e.kind == "assign" and e.value is not None and find_atoms(e.value, lambda a: a[0] in ("lt", "le"))]
     chk.need(km, "prune_degenerate_points: comparison with the threshold not found")
     n = 0
     for a in find_atoms(km[0].value, lambda a: a[0] in ("lt", "le")):
-        dl, dr = deg.of(a[1]), deg.of(a[2])
         if thr not in a[1].key() + a[2].key():
             continue
+        tside, dside = (a[1], a[2]) if thr in a[1].key() else (a[2], a[1])
         n += 1
-        chk.ob("R19.4", W, "prune_degenerate_points", "the distance test compares quantities of the same length dimension (squared distance with squared threshold)",
-               dl is not None and dl == dr, node=km[0].node, fingerprint="dimension", expected="degree 2 on both sides", found=f"{a[1]}: degree {dl}  vs  {str(a[2])[:80]}: degree {dr}")
+        lt, ld = deg_len.of(tside), deg_len.of(dside)
+        chk.ob("R19.4", W, "prune_degenerate_points", "the pruning test is scale free: both sides have the same length dimension with the threshold a pure "
+               "ratio (an absolute length threshold breaks 'scaling all energies by s scales the shape by s')", lt is not None and lt == ld,
+               node=km[0].node, fingerprint="dimension", expected="distance^2 >= (threshold * size)^2",
+               found=f"{str(tside)[:80]}: length degree {lt}  vs  {str(dside)[:40]}: length degree {ld}")
+        pt = deg_thr.of(tside)
+        chk.ob("R19.4", W, "prune_degenerate_points", "the threshold enters to the same power as the distance it bounds (squared distance with squared threshold)",
+               pt is not None and pt == ld, node=km[0].node, fingerprint="threshold-power", expected=f"threshold^{ld}",
+               found=f"threshold^{pt} against a distance to the power {ld}")
     chk.need(n >= 1, "prune_degenerate_points: no comparison involving the threshold")
     # (c) constructor: energies keep a dtype of their own
     q = "WulffConstruction.__init__"
